@@ -449,4 +449,7 @@ class ProgressBar(object):
         return self._max
 
     def _formatter_percent(self):
-        return int(math.floor(self._percent * 100))
+        if not self._max:
+            return 0
+
+        return self._step * 100 // self._max
